@@ -322,7 +322,7 @@ func TestC12Close(t *testing.T) {
 type hsCancelCase struct {
 	Role     string `json:"role"` // client | server
 	CancelMs int    `json:"cancel_ms"`
-	PeerUp   bool   `json:"peer_up"`  // a peer exists but every packet to it is dropped
+	PeerUp   bool   `json:"peer_up"` // a peer exists but every packet to it is dropped
 	HsMs     int    `json:"hs_ms"`
 }
 
@@ -423,10 +423,10 @@ type blockClose struct {
 	// HoldMs: how long the transport has been blocking when Close is called.
 	// Values above the resend timeout (200ms) put a retransmission in
 	// progress (queue.resend stuck in sendFunc) at that moment.
-	HoldMs  int  `json:"hold_ms"`
-	N       int  `json:"n"`
-	Msgs    int  `json:"msgs"`
-	Callers int  `json:"callers"`
+	HoldMs  int    `json:"hold_ms"`
+	N       int    `json:"n"`
+	Msgs    int    `json:"msgs"`
+	Callers int    `json:"callers"`
 	Who     string `json:"who"`
 }
 
